@@ -159,11 +159,8 @@ func (st *State) exec(th *Thread, fr *Frame, in ssa.Instruction) stepStatus {
 		fr.defers = append(fr.defers, deferred{fn: f, args: args})
 		return stNext
 	case *ssa.RunDefers:
-		if n := len(fr.defers); n > 0 {
-			d := fr.defers[n-1]
-			fr.defers = fr.defers[:n-1]
-			st.invokeDeferred(th, d)
-			return stJump // re-executes RunDefers after the deferred call returns
+		if len(fr.defers) > 0 {
+			return st.runOneDefer(th, fr) // RunDefers is re-executed after the deferred call returns
 		}
 		return stNext
 	case *ssa.Panic:
@@ -1296,7 +1293,7 @@ func (st *State) execCall(th *Thread, fr *Frame, x ssa.Value, c *ssa.CallCommon,
 	if f.Fn == nil {
 		return st.runtimePanic(th, "call of nil function")
 	}
-	if r, status, handled := st.intrinsic(th, fr, f.Fn, args, c); handled {
+	if r, status, handled := st.intrinsic(th, fr, f, args, c); handled {
 		if status == stNext {
 			st.setLocal(fr, x, r)
 		}
